@@ -192,3 +192,25 @@ def check(ctx):
     shared.timer_api_forwarding(ctx)
     shared.timer_handler_rules(ctx)
     shared.selector_serves_timeout_wakeups(ctx)
+    # the timer thread really unlinks every handle that del_timer handed to it (an entry that stays in its list fires into a later park on
+    # the same Park: Timeout before the deadline), and it re-checks the remove list after it has published its wake-up handle
+    RUNF = TT + "::run"
+    RLPOP = variant_of_call(MQ_MPSC + "pop", "Some")
+    ctx.must_follow(RUNF, None, Call(r"may_queue::mpsc_list_v1::Entry::remove", transitive=False), "timer-thread/removes-every-queued-handle",
+                    "every handle popped from remove_list is unlinked from its timer list", rule="R-PAIR", edge=RLPOP, edge_label="edge `remove_list.pop()` is Some",
+                    exits=lambda g: set(g.ret_points()) | ctx.an.sites(g, Call(MQ_MPSC + "pop", transitive=False), "must") | ctx.an.sites(g, Call(r"std::thread::park(_timeout)?", transitive=False), "must"))
+    f = ctx.fn("R-SLOT", RUNF, "timer-thread/rechecks-remove-list-after-register")
+    if f is not None:
+        st = ctx.an.sites(f, ao("store", W), "must")
+        chk = ctx.an.sites(f, Call(r"may_queue::mpsc::Queue::(is_empty|len|peek|pop)", on=TT + ".remove_list", transitive=False), "must")
+        parks = ctx.an.sites(f, Call(r"std::thread::park(_timeout)?", transitive=False), "must")
+        r = ctx.an.reach(f, [q for s0 in st for q in ctx.an.after(f, s0)], blocked=chk)
+        bad = [p0 for p0 in parks if p0 in r]
+        ctx.ob("R-SLOT", RUNF, "timer-thread/rechecks-remove-list-after-register", bool(st) and bool(chk) and not bad,
+               "after publishing its wake-up handle the timer thread looks at remove_list again before it parks (a del_timer that came in between is not slept on)" if st and chk and not bad else
+               "the timer thread can park after publishing its wake-up handle without re-checking remove_list: a removal queued in between waits for the next wake-up, its timer may fire first", f.where((bad or sorted(parks) or [None])[0]))
+        nonempty = call_false(r"may_queue::mpsc::Queue::is_empty")
+        if ctx.edges(f, nonempty):
+            ctx.must_follow(RUNF, None, ao("take", W), "timer-thread/pending-removal-self-wakes", "a pending removal seen by the re-check makes the timer thread take its own wake-up handle (it will not sleep)",
+                            rule="R-SLOT", edge=nonempty, edge_label="edge `remove_list.is_empty()` is false",
+                            exits=lambda g: set(g.ret_points()) | ctx.an.sites(g, Call(r"std::thread::park(_timeout)?", transitive=False), "must"))
